@@ -133,58 +133,64 @@ CloseBeglineLists(st) ==
   ELSE PopWhileHaveList(st)
 
 (* ---------------------------------------------------------------- text_fn *)
+(* text_fn(ctx, token): `atoms` is the whole token; its first atom decides     *)
+(* the startswith(" ") / link-trail questions                                  *)
 IsSpaceAtom(a) == a \in {"SP", "NL"}
 AllWs(s) == \A i \in 1..Len(s) : IsSpaceAtom(s[i])
 EndsNL(f) == LastIsStr(f) /\ Last(LastStr(f)) = "NL"
 InRefOrP(st) == \E i \in 1..Len(st.stack) :
                    st.stack[i].kind = "HTML" /\ st.stack[i].sarg \in {<<"ref">>, <<"p">>}
-IsWordAtom(a) == a \in {"w", "a=b"} \/ (a \notin {"SP", "NL"} /\ Len(<<a>>) = 1 /\ a \in WordAtoms)
+\* atoms whose text does not start with a \w character
+NonWordAtoms == {"SP", "NL", "=", "'", "''", "'''", "*", "#", ";", ":", "----", "!", "|", "{", "}",
+                 "+", "-", "=b", "nowiki", "url", "magicT", "magicA", "magicL", "magicE", "magicN", "magicF",
+                 "<span>", "</span>", "<div>", "</div>", "<br>", "</br>", "<ref>", "</ref>", "<ul>", "</ul>",
+                 "<li>", "</li>", "<pre>", "</pre>", "<foo>", "</foo>"}
+IsWordAtom(a) == a \notin NonWordAtoms
+RECURSIVE AppendAtoms(_, _, _)
+AppendAtoms(f, atoms, i) == IF i > Len(atoms) THEN f ELSE AppendAtoms(AppendText(f, atoms[i]), atoms, i + 1)
 
 \* the auto-close loop of text_fn at the beginning of a line;
 \* done = the token was consumed inside the loop
 RECURSIVE AutoPop(_, _)
-AutoPop(st, atom) ==
+AutoPop(st, atoms) ==
   LET f == Top(st) IN
   IF st.stuck THEN [st |-> st, done |-> TRUE]
   ELSE IF f.kind = "LIST_ITEM"
-  THEN IF atom = "SP" THEN [st |-> SetTop(st, AppendText(f, atom)), done |-> TRUE]
+  THEN IF atoms[1] = "SP" THEN [st |-> SetTop(st, AppendAtoms(f, atoms, 1)), done |-> TRUE]
        ELSE IF EndsNL(f) /\ (Len(f.children) > 1 \/ ~AllWs(LastStr(f)))
-            THEN AutoPop(Pop(st), atom)
+            THEN AutoPop(Pop(st), atoms)
             ELSE [st |-> st, done |-> FALSE]
-  ELSE IF f.kind = "LIST" THEN AutoPop(Pop(st), atom)
+  ELSE IF f.kind = "LIST" THEN AutoPop(Pop(st), atoms)
   ELSE IF f.kind = "PREFORMATTED"
-  THEN IF EndsNL(f) /\ atom # "SP" THEN AutoPop(Pop(st), atom)
+  THEN IF EndsNL(f) /\ atoms[1] # "SP" THEN AutoPop(Pop(st), atoms)
        ELSE [st |-> st, done |-> FALSE]
-  ELSE IF f.kind \in {"BOLD", "ITALIC"} THEN AutoPop(Pop(st), atom)
+  ELSE IF f.kind \in {"BOLD", "ITALIC"} THEN AutoPop(Pop(st), atoms)
   ELSE [st |-> st, done |-> FALSE]
 
-\* link trail: word characters directly after a LINK without children
-AddTextChild(st, atom) ==
+\* link trail: leading word characters directly after a LINK without children
+AddTextChild(st, atoms) ==
   LET f == Top(st) IN
-  IF LastIsNode(f) /\ LastNode(f).kind = "LINK" /\ LastNode(f).children = <<>> /\ IsWordAtom(atom)
-  THEN SetTop(st, [f EXCEPT !.children[Len(f.children)].children = <<[s |-> <<atom>>]>>])
-  ELSE SetTop(st, AppendText(f, atom))
+  IF LastIsNode(f) /\ LastNode(f).kind = "LINK" /\ LastNode(f).children = <<>> /\ IsWordAtom(atoms[1])
+  THEN LET head == IF atoms[1] = "a=b" THEN "a" ELSE atoms[1]
+           rest == (IF atoms[1] = "a=b" THEN <<"=b">> ELSE <<>>) \o Tail(atoms)
+           f1 == [f EXCEPT !.children[Len(f.children)].children = <<[s |-> <<head>>]>>]
+       IN SetTop(st, AppendAtoms(f1, rest, 1))
+  ELSE SetTop(st, AppendAtoms(f, atoms, 1))
 
-TextFn(st0, atom) ==
+TextFn(st0, atoms) ==
   LET st1 == CloseBeglineLists(st0) IN
   IF st1.stuck THEN st1
-  ELSE IF ~st1.bol THEN AddTextChild(st1, atom)
-  ELSE LET r == AutoPop(st1, atom) IN
+  ELSE IF ~st1.bol THEN AddTextChild(st1, atoms)
+  ELSE LET r == AutoPop(st1, atoms) IN
        IF r.done THEN r.st
        ELSE LET st2 == r.st
                 f2 == Top(st2) IN
-            IF atom = "SP"
+            IF atoms[1] = "SP"
             THEN IF f2.kind \in {"TABLE", "TABLE_ROW"} THEN st2
                  ELSE IF f2.kind # "PREFORMATTED" /\ ~st2.pre /\ ~InRefOrP(st2)
-                      THEN AddTextChild(Push(st2, "PREFORMATTED", <<>>), atom)
-                      ELSE AddTextChild(st2, atom)
-            ELSE AddTextChild(st2, atom)
-RECURSIVE TextSeq(_, _, _)
-TextSeq(st, atoms, i) ==
-  IF i > Len(atoms) THEN st
-  \* one text token of several atoms: only the first atom sees the line start
-  ELSE IF i = 1 THEN TextSeq(TextFn(st, atoms[1]), atoms, 2)
-  ELSE TextSeq(SetTop(st, AppendText(Top(st), atoms[i])), atoms, i + 1)
+                      THEN AddTextChild(Push(st2, "PREFORMATTED", <<>>), atoms)
+                      ELSE AddTextChild(st2, atoms)
+            ELSE AddTextChild(st2, atoms)
 
 (* --------------------------------------------------------------- hline_fn *)
 HlineStops(Dev) == {"ROOT", "LEVEL2", "HTML"} \cup TableParts
@@ -205,7 +211,7 @@ PopForTitle(st, level) ==
   ELSE PopForTitle(Pop(st), level)
 EqAtoms(l) == [i \in 1..l |-> "="]
 SubtitleStart(st0, l) ==
-  IF st0.pre \/ ~st0.bol THEN TextSeq(st0, EqAtoms(l), 1)
+  IF st0.pre \/ ~st0.bol THEN TextFn(st0, EqAtoms(l))
   ELSE Push(PopForTitle(CloseBeglineLists(st0), l), KindOfLevel(l), <<>>)
 
 \* walks down the stack while the frames were opened on this line
@@ -216,9 +222,9 @@ FindStart(st, kind, i) ==      \* number of frames above the start node; 99 = no
   ELSE IF st.stack[i].kind = kind THEN Len(st.stack) - i
   ELSE FindStart(st, kind, i - 1)
 SubtitleEnd(st, l, Dev) ==
-  IF st.pre /\ "PreInHeading" \in Dev THEN TextSeq(st, EqAtoms(l), 1)
+  IF st.pre THEN TextFn(st, EqAtoms(l))
   ELSE LET cnt == FindStart(st, KindOfLevel(l), Len(st.stack)) IN
-       IF cnt = 99 THEN TextSeq(st, EqAtoms(l), 1)
+       IF cnt = 99 THEN TextFn(st, EqAtoms(l))
        ELSE LET st1 == PopN(st, cnt)
                 f == Top(st1) IN
             IF st1.stuck \/ f.kind # KindOfLevel(l) THEN Stuck(st1)
@@ -257,12 +263,12 @@ PopUntilNthList(st, tok) ==
   IN PopN(st, Len(st.stack) - passed)
 ListFn(st0, tok) ==
   LET f0 == Top(st0) IN
-  IF st0.pre THEN TextSeq(st0, tok, 1)
-  ELSE IF f0.kind \in {"LINK", "URL"} THEN TextSeq(st0, tok, 1)
+  IF st0.pre THEN TextFn(st0, tok)
+  ELSE IF f0.kind \in {"LINK", "URL"} THEN TextFn(st0, tok)
   ELSE IF ~st0.bol
   THEN IF tok = <<":">> /\ f0.kind = "LIST_ITEM" /\ Last(f0.sarg) = ";" /\ ~f0.th.has
        THEN SetTop(st0, SaveHead(f0))
-       ELSE TextSeq(st0, tok, 1)
+       ELSE TextFn(st0, tok)
   ELSE LET r == ListPop(st0, tok) IN
        IF r.ret THEN r.st
        ELSE LET st2 == PopUntilNthList(r.st, tok)
@@ -280,7 +286,7 @@ PopToFormat(st, kind, saw) ==
   ELSE IF f.kind = kind THEN [st |-> Pop(st), saw |-> saw]
   ELSE PopToFormat(Pop(st), kind, saw \/ f.kind = Other(kind))
 FormatFn(st0, kind, atoms) ==
-  IF st0.pre THEN TextSeq(st0, atoms, 1)
+  IF st0.pre THEN TextFn(st0, atoms)
   ELSE LET st1 == CloseBeglineLists(st0) IN
        IF st1.stuck THEN st1
        ELSE IF ~Have(st1, {kind}) \/ Top(st1).kind = "LINK" THEN Push(st1, kind, <<>>)
@@ -311,31 +317,31 @@ TableRowCheckAttrs(st0) ==
 RECURSIVE TableCellLoop(_, _)
 RECURSIVE TableHdrLoop(_, _)
 TableCellFn(st0, atoms) ==        \* token "|" (atoms <<"|">>) or "||"
-  IF st0.pre THEN TextSeq(st0, atoms, 1)
+  IF st0.pre THEN TextFn(st0, atoms)
   ELSE LET st1 == TableCheckAttrs(TableRowCheckAttrs(CloseBeglineLists(st0)))
            f == Top(st1) IN
        IF st1.stuck THEN st1
-       ELSE IF ~Have(st1, {"TABLE"}) THEN TextSeq(st1, atoms, 1)
+       ELSE IF ~Have(st1, {"TABLE"}) THEN TextFn(st1, atoms)
        ELSE IF atoms = <<"|">> /\ ~st1.wsp /\ ~st1.bol
                /\ f.kind \in {"TABLE_CAPTION", "TABLE_HEADER_CELL", "TABLE_CELL"}
        THEN IF f.attrs = <<>>
             THEN (IF Len(f.children) = 1 /\ IsStr(f.children[1]) THEN SetTop(st1, TakeAttrs(f)) ELSE st1)
-            ELSE TextSeq(st1, atoms, 1)
+            ELSE TextFn(st1, atoms)
        ELSE TableCellLoop(st1, atoms)
 TableCellLoop(st, atoms) ==
   LET f == Top(st) IN
   IF st.stuck THEN st
   ELSE IF f.kind = "TABLE_ROW" THEN Push(st, "TABLE_CELL", <<>>)
   ELSE IF f.kind = "TABLE" THEN Push(Push(st, "TABLE_ROW", <<>>), "TABLE_CELL", <<>>)
-  ELSE IF f.kind \in {"TABLE_CAPTION", "HTML"} THEN TextSeq(st, atoms, 1)
+  ELSE IF f.kind \in {"TABLE_CAPTION", "HTML"} THEN TextFn(st, atoms)
   ELSE TableCellLoop(Pop(st), atoms)
 
 TableHdrCellFn(st0, atoms) ==     \* token "!" or "!!" (or "||" via double_vbar_fn)
-  IF st0.pre THEN TextSeq(st0, atoms, 1)
+  IF st0.pre THEN TextFn(st0, atoms)
   ELSE LET st1 == TableCheckAttrs(TableRowCheckAttrs(CloseBeglineLists(st0))) IN
        IF st1.stuck THEN st1
-       ELSE IF ~Have(st1, {"TABLE"}) THEN TextSeq(st1, atoms, 1)
-       ELSE IF atoms = <<"!">> /\ ~(st1.bol \/ st1.wsp) THEN TextSeq(st1, atoms, 1)
+       ELSE IF ~Have(st1, {"TABLE"}) THEN TextFn(st1, atoms)
+       ELSE IF atoms = <<"!">> /\ ~(st1.bol \/ st1.wsp) THEN TextFn(st1, atoms)
        ELSE TableHdrLoop(st1, atoms)
 TableHdrLoop(st, atoms) ==
   LET f == Top(st) IN
@@ -344,12 +350,12 @@ TableHdrLoop(st, atoms) ==
   ELSE IF f.kind = "TABLE" THEN Push(Push(st, "TABLE_ROW", <<>>), "TABLE_HEADER_CELL", <<>>)
   ELSE IF f.kind = "TABLE_CAPTION"
   THEN IF st.bol THEN Push(Push(Pop(st), "TABLE_ROW", <<>>), "TABLE_HEADER_CELL", <<>>)
-       ELSE TextSeq(st, atoms, 1)
-  ELSE IF f.kind \in {"HTML", "TEMPLATE", "LINK", "URL"} THEN TextSeq(st, atoms, 1)
-  ELSE IF f.kind = "TABLE_CELL" /\ ~st.bol /\ ~st.wsp THEN TextSeq(st, atoms, 1)
+       ELSE TextFn(st, atoms)
+  ELSE IF f.kind \in {"HTML", "TEMPLATE", "LINK", "URL"} THEN TextFn(st, atoms)
+  ELSE IF f.kind = "TABLE_CELL" /\ ~st.bol /\ ~st.wsp THEN TextFn(st, atoms)
   ELSE TableHdrLoop(Pop(st), atoms)
 
-VbarFn(st) == IF Have(st, {"TABLE"}) THEN TableCellFn(st, <<"|">>) ELSE TextFn(st, "|")
+VbarFn(st) == IF Have(st, {"TABLE"}) THEN TableCellFn(st, <<"|">>) ELSE TextFn(st, <<"|">>)
 
 \* [st, kind]: kind = the last frame kind the loop looked at
 RECURSIVE DvbLoop(_)
@@ -365,14 +371,14 @@ DoubleVbarFn(st0) ==
   LET r == DvbLoop(st0)
       f == Top(r.st) IN
   IF r.st.stuck THEN r.st
-  ELSE IF r.txt THEN TextSeq(r.st, <<"|", "|">>, 1)
+  ELSE IF r.txt THEN TextFn(r.st, <<"|", "|">>)
   ELSE IF r.k = "TABLE_ROW" /\ LastIsNode(f) /\ LastNode(f).kind = "TABLE_HEADER_CELL"
   THEN TableHdrCellFn(r.st, <<"|", "|">>)
   ELSE TableCellFn(r.st, <<"|", "|">>)
 
 TableStartFn(st) ==
-  IF st.pre THEN TextSeq(st, <<"{", "|">>, 1)
-  ELSE IF ~(st.bol \/ st.wsp) THEN VbarFn(TextFn(st, "{"))
+  IF st.pre THEN TextFn(st, <<"{", "|">>)
+  ELSE IF ~(st.bol \/ st.wsp) THEN VbarFn(TextFn(st, <<"{">>))
   ELSE Push(CloseBeglineLists(st), "TABLE", <<>>)
 
 RECURSIVE ContainsKind(_, _)
@@ -380,27 +386,27 @@ ContainsKindIn(lst, kind) == \E i \in 1..Len(lst) : ~IsStr(lst[i]) /\ (lst[i].ki
 ContainsKind(n, kind) == ContainsKindIn(n.children, kind) \/ \E k \in 1..Len(n.largs) : ContainsKindIn(n.largs[k], kind)
 
 TableCaptionFn(st0) ==
-  IF st0.pre THEN TextSeq(st0, <<"|", "+">>, 1)
-  ELSE IF ~(st0.bol \/ st0.wsp) THEN TextFn(VbarFn(st0), "+")
+  IF st0.pre THEN TextFn(st0, <<"|", "+">>)
+  ELSE IF ~(st0.bol \/ st0.wsp) THEN TextFn(VbarFn(st0), <<"+">>)
   ELSE LET st1 == TableCheckAttrs(CloseBeglineLists(st0)) IN
        IF st1.stuck THEN st1
-       ELSE IF ~Have(st1, {"TABLE"}) THEN TextSeq(st1, <<"|", "+">>, 1)
+       ELSE IF ~Have(st1, {"TABLE"}) THEN TextFn(st1, <<"|", "+">>)
        ELSE Push(PopUntil(st1, {"TABLE"}), "TABLE_CAPTION", <<>>)
 TableRowFn(st0) ==
-  IF st0.pre THEN TextSeq(st0, <<"|", "-">>, 1)
+  IF st0.pre THEN TextFn(st0, <<"|", "-">>)
   ELSE IF ~(st0.bol \/ st0.wsp)
   THEN IF Top(st0).kind = "TABLE" /\ ~ContainsKind(Top(st0), "TABLE_ROW") THEN st0
-       ELSE TextFn(VbarFn(st0), "-")
+       ELSE TextFn(VbarFn(st0), <<"-">>)
   ELSE LET st1 == TableCheckAttrs(CloseBeglineLists(st0)) IN
        IF st1.stuck THEN st1
-       ELSE IF ~Have(st1, {"TABLE"}) THEN TextSeq(st1, <<"|", "-">>, 1)
+       ELSE IF ~Have(st1, {"TABLE"}) THEN TextFn(st1, <<"|", "-">>)
        ELSE Push(PopUntil(st1, {"TABLE"}), "TABLE_ROW", <<>>)
 TableEndFn(st0) ==
-  IF st0.pre THEN TextSeq(st0, <<"|", "}">>, 1)
-  ELSE IF ~(st0.bol \/ st0.wsp) THEN TextFn(VbarFn(st0), "}")
+  IF st0.pre THEN TextFn(st0, <<"|", "}">>)
+  ELSE IF ~(st0.bol \/ st0.wsp) THEN TextFn(VbarFn(st0), <<"}">>)
   ELSE LET st1 == TableCheckAttrs(TableRowCheckAttrs(CloseBeglineLists(st0))) IN
        IF st1.stuck THEN st1
-       ELSE IF ~Have(st1, {"TABLE"}) THEN TextSeq(st1, <<"|", "}">>, 1)
+       ELSE IF ~Have(st1, {"TABLE"}) THEN TextFn(st1, <<"|", "}">>)
        ELSE Pop(PopUntil(st1, {"TABLE"}))
 
 (* ----------------------------------------------------------------- tag_fn *)
@@ -416,11 +422,11 @@ CloseParents(st, name) ==
 TagStartFn(st0, name, attrs, alsoEnd) ==
   LET st1 == CloseBeglineLists(st0) IN
   IF st1.stuck THEN st1
-  ELSE IF st1.pre THEN TextFn(st1, TagAtom(name, FALSE))
+  ELSE IF st1.pre THEN TextFn(st1, <<TagAtom(name, FALSE)>>)
   ELSE IF name = "pre"
   THEN IF alsoEnd THEN Pop(PushA(st1, "PRE", <<>>, attrs))
        ELSE [PushA(st1, "PRE", <<>>, attrs) EXCEPT !.pre = TRUE]
-  ELSE IF name \notin ModelledTags THEN TextFn(st1, TagAtom(name, FALSE))
+  ELSE IF name \notin ModelledTags THEN TextFn(st1, <<TagAtom(name, FALSE)>>)
   ELSE LET st2 == PushA(CloseParents(st1, name), "HTML", <<name>>, attrs) IN
        IF st2.stuck THEN st2
        ELSE IF NoEndTag(name) \/ alsoEnd THEN Pop(st2) ELSE st2
@@ -443,11 +449,11 @@ TagEndFn(st0, name) ==
   IF st1.stuck THEN st1
   ELSE IF name = "pre"
   THEN LET st2 == [st1 EXCEPT !.pre = FALSE] IN
-       IF Top(st2).kind # "PRE" THEN TextFn(st2, TagAtom(name, TRUE)) ELSE Pop(st2)
-  ELSE IF st1.pre THEN TextFn(st1, TagAtom(name, TRUE))
+       IF Top(st2).kind # "PRE" THEN TextFn(st2, <<TagAtom(name, TRUE)>>) ELSE Pop(st2)
+  ELSE IF st1.pre THEN TextFn(st1, <<TagAtom(name, TRUE)>>)
   ELSE IF ~HaveTag(st1, name)
   THEN IF name = "br" THEN SetTop(st1, AppendNode(Top(st1), Leaf("HTML", <<name>>, <<>>)))
-       ELSE TextFn(st1, TagAtom(name, TRUE))
+       ELSE TextFn(st1, <<TagAtom(name, TRUE)>>)
   ELSE CloseToTag(st1, name)
 
 (* ------------------------------------------- magic_fn / magicword / url -- *)
@@ -461,7 +467,7 @@ MagicLeaf(k) ==
 MagicFn(st0, k) ==
   LET st1 == CloseBeglineLists(st0) IN
   IF st1.stuck THEN st1
-  ELSE IF k = "N" THEN TextFn(st1, "nowiki")
+  ELSE IF k = "N" THEN TextFn([st1 EXCEPT !.bol = FALSE], <<"nowiki">>)   \* magic_fn cleared beginning_of_line
   ELSE SetTop(st1, AppendNode(Top(st1), MagicLeaf(k)))
 MagicWordFn(st0) ==
   LET st1 == CloseBeglineLists(st0) IN
@@ -469,7 +475,7 @@ MagicWordFn(st0) ==
 UrlFn(st0) ==
   LET st1 == CloseBeglineLists(st0) IN
   IF st1.stuck THEN st1
-  ELSE IF st1.pre THEN TextFn(st1, "url")
+  ELSE IF st1.pre THEN TextFn(st1, <<"url">>)
   ELSE SetTop(st1, AppendNode(Top(st1), Leaf("URL", <<>>, << <<[s |-> <<"url">>]>> >>)))
 
 (* ------------------------------------------------------------ dispatch ---- *)
@@ -499,12 +505,12 @@ TokAtoms(tok) ==
 
 Handle(st, tok, Dev) ==
   IF Top(st).kind = "PRE" /\ ~(tok.k = "TAG" /\ tok.close /\ tok.name = "pre")
-  THEN TextSeq(st, TokAtoms(tok), 1)        \* process_text: inside <pre> everything is text
-  ELSE CASE tok.k \in {"TXT", "SP", "NL"} -> TextSeq(st, TokAtoms(tok), 1)
+  THEN TextFn(st, TokAtoms(tok))        \* process_text: inside <pre> everything is text
+  ELSE CASE tok.k \in {"TXT", "SP", "NL"} -> TextFn(st, TokAtoms(tok))
          [] tok.k = "HS"  -> SubtitleStart(st, tok.l)
          [] tok.k = "HE"  -> SubtitleEnd(st, tok.l, Dev)
          [] tok.k = "LP"  -> ListFn(st, tok.p)
-         [] tok.k = "HR"  -> (IF st.bol THEN HlineFn(st, Dev) ELSE TextFn(st, "----"))
+         [] tok.k = "HR"  -> (IF st.bol THEN HlineFn(st, Dev) ELSE TextFn(st, <<"----">>))
          [] tok.k = "IT"  -> FormatFn(st, "ITALIC", <<"''">>)
          [] tok.k = "BO"  -> FormatFn(st, "BOLD", <<"'''">>)
          [] tok.k = "TS"  -> TableStartFn(st)
@@ -552,7 +558,6 @@ MarkerChunks == {"*", "#", ";", ":"}
 EqLen(c) == CASE c = "EQ1" -> 1 [] c = "EQ2" -> 2 [] c = "EQ3" -> 3 [] c = "EQ4" -> 4
               [] c = "EQ5" -> 5 [] c = "EQ6" -> 6 [] OTHER -> 0
 QLen(c) == CASE c = "Q2" -> 2 [] c = "Q3" -> 3 [] c = "Q5" -> 5 [] OTHER -> 0
-WordAtoms == {"w", "a=b", "t", "L", "1", "url", "nowiki", "x"}
 
 \* a chunk that is always the same token, wherever it stands
 FixedTok(c) ==
@@ -601,8 +606,12 @@ MidText(c) ==
 
 IsQ(c) == QLen(c) > 0
 \* length of the run of chunks satisfying P starting at i
-RECURSIVE RunEnd(_, _, _)
-RunEnd(line, i, P(_)) == IF i <= Len(line) /\ P(line[i]) THEN RunEnd(line, i + 1, P) ELSE i
+RECURSIVE RunEndQ(_, _)
+RunEndQ(line, i) == IF i <= Len(line) /\ IsQ(line[i]) THEN RunEndQ(line, i + 1) ELSE i
+RECURSIVE RunEndSP(_, _)
+RunEndSP(line, i) == IF i <= Len(line) /\ line[i] = "SP" THEN RunEndSP(line, i + 1) ELSE i
+RECURSIVE RunEndMarker(_, _)
+RunEndMarker(line, i) == IF i <= Len(line) /\ line[i] \in MarkerChunks THEN RunEndMarker(line, i + 1) ELSE i
 RECURSIVE SumQ(_, _, _)
 SumQ(line, i, j) == IF i >= j THEN 0 ELSE QLen(line[i]) + SumQ(line, i + 1, j)
 \* bold_follows: a later apostrophe run of length >= 3 on the same line
@@ -610,7 +619,7 @@ RECURSIVE BoldFollows(_, _)
 BoldFollows(line, i) ==
   IF i > Len(line) THEN FALSE
   ELSE IF IsQ(line[i])
-       THEN LET j == RunEnd(line, i, IsQ) IN SumQ(line, i, j) >= 3 \/ BoldFollows(line, j)
+       THEN LET j == RunEndQ(line, i) IN SumQ(line, i, j) >= 3 \/ BoldFollows(line, j)
        ELSE BoldFollows(line, i + 1)
 Apos(n) == IF n > 0 THEN << [k |-> "TXT", a |-> [i \in 1..n |-> "'"]] >> ELSE <<>>
 IT == [k |-> "IT"]
@@ -633,7 +642,6 @@ QuoteToks(n, s, follows) ==
          [] s = 3 -> [t |-> <<IT>>, s |-> 2]
          [] s = 0 -> [t |-> <<IT>>, s |-> 1]
 
-IsSP(c) == c = "SP"
 IsMarker(c) == c \in MarkerChunks
 AllSP(line) == \A i \in 1..Len(line) : line[i] = "SP"
 
@@ -644,17 +652,17 @@ LineToks(line, i, s, first) ==
   IF i > Len(line) THEN <<>>
   ELSE LET c == line[i] IN
     IF IsQ(c)
-    THEN LET j == RunEnd(line, i, IsQ)
+    THEN LET j == RunEndQ(line, i)
              q == QuoteToks(SumQ(line, i, j), s, BoldFollows(line, j))
          IN q.t \o LineToks(line, j, q.s, FALSE)
     ELSE IF c = "SP"
-    THEN LET j == RunEnd(line, i, IsSP) IN
+    THEN LET j == RunEndSP(line, i) IN
          \* "^[ \t]*!" : leading blanks directly before ! at the line start belong to the token
          IF i = 1 /\ first /\ j <= Len(line) /\ line[j] = "EX"
          THEN <<[k |-> "EX"]>> \o LineToks(line, j + 1, s, first)
          ELSE <<[k |-> "SP", n |-> j - i]>> \o LineToks(line, j, s, first)
     ELSE IF i = 1 /\ first /\ IsMarker(c)
-    THEN LET j == RunEnd(line, 1, IsMarker) IN
+    THEN LET j == RunEndMarker(line, 1) IN
          <<[k |-> "LP", p |-> SubSeq(line, 1, j - 1)]>> \o LineToks(line, j, s, first)
     ELSE IF i = 1 /\ first /\ c = "HR" THEN <<[k |-> "HR"]>> \o LineToks(line, 2, s, first)
     ELSE IF i = 1 /\ first /\ c = "EX" THEN <<[k |-> "EX"]>> \o LineToks(line, 2, s, first)
